@@ -5,16 +5,20 @@ From Verif Require Judge.Tdc Judge.Reuse Judge.IdZero.
 Export Judge.Tdc Judge.Reuse Judge.IdZero.
 Inductive case := KTdc (c : Judge.Tdc.case) | KReuse (c : Judge.Reuse.case) | KId (c : Judge.IdZero.icase)
   | KIdB (l : list Judge.IdZero.icase)
-  | KHeld (c : Judge.IdZero.hcase).   (* exchanges run concurrently on one DoH upstream / one QUIC connection *)
+  | KHeld (c : Judge.IdZero.hcase)   (* exchanges run concurrently on one DoH upstream / one QUIC connection *)
+  | KIdW (c : Judge.IdZero.wcase).   (* DoQ: failed stream writes, then concurrent exchanges with interleaved payload building *)
 Definition agree (c : case) : bool :=
   match c with KTdc x => Judge.Tdc.agree x | KReuse x => Judge.Reuse.agree x | KId x => Judge.IdZero.i_agree x
   | KIdB l => forallb Judge.IdZero.i_agree l
-  | KHeld x => Judge.IdZero.h_agree x end.
+  | KHeld x => Judge.IdZero.h_agree x
+  | KIdW x => Judge.IdZero.w_agree x end.
 Definition spec (c : case) : bool :=
   match c with KTdc x => Judge.Tdc.spec_c01 x | KReuse x => Judge.Reuse.spec_c01 x | KId x => Judge.IdZero.i_spec x
   | KIdB l => forallb Judge.IdZero.i_spec l
-  | KHeld x => Judge.IdZero.h_spec x end.
+  | KHeld x => Judge.IdZero.h_spec x
+  | KIdW x => Judge.IdZero.w_spec x end.
 Definition nontrivial (c : case) : bool :=
   match c with KTdc x => Judge.Tdc.nontrivial_c01 x | KReuse x => Judge.Reuse.nontrivial x | KId x => Judge.IdZero.i_nontrivial x
   | KIdB l => (2 <=? length l)%nat
-  | KHeld x => Judge.IdZero.h_nontrivial x end.
+  | KHeld x => Judge.IdZero.h_nontrivial x
+  | KIdW x => Judge.IdZero.w_nontrivial x end.
